@@ -3599,15 +3599,17 @@ func (p *Posix) DeleteObjects(ctx context.Context, input *s3.DeleteObjectsInput)
 			serr, ok := err.(s3err.APIError)
 			if ok {
 				errs = append(errs, types.Error{
-					Key:     obj.Key,
-					Code:    &serr.Code,
-					Message: &serr.Description,
+					Key:       obj.Key,
+					VersionId: obj.VersionId,
+					Code:      &serr.Code,
+					Message:   &serr.Description,
 				})
 			} else {
 				errs = append(errs, types.Error{
-					Key:     obj.Key,
-					Code:    backend.GetPtrFromString("InternalError"),
-					Message: backend.GetPtrFromString(err.Error()),
+					Key:       obj.Key,
+					VersionId: obj.VersionId,
+					Code:      backend.GetPtrFromString("InternalError"),
+					Message:   backend.GetPtrFromString(err.Error()),
 				})
 			}
 		}
